@@ -265,11 +265,11 @@ def render_program(stmts, names, layout='canon', seed=0, order=None, verbat=()):
                 lines.append('# 1) leading comment = with an equals sign and an unmatched bracket')
                 lines.append('')
             head, *rest = text.split('\n')
-            text = '\n'.join([head + '  # (trailing comment: ' + names[0] + ' = 1'] + rest)
+            text = '\n'.join([head + '  # (trailing comment with a `backtick`: ' + names[0] + ' = 1'] + rest)
             lines.append(text)
             lines.append('')
             lines.append('   ')
-            lines.append('#')
+            lines.append('# ` (a lone backtick)')
         else:
             lines.append(text)
         first = False
